@@ -79,6 +79,7 @@ type Outcome struct {
 	Tag   string
 	RetI  *int64 // integer constant returned (RetIdx result), if it is one
 	Ret   Tri
+	Rets  []Tri  // every boolean result of the return (U for the others)
 	Ended string // return, stop, loop, panic
 	Err   bool   // the return hands out an error that is not nil on this path (error return, not a verdict)
 	Why   string // first unknown condition met on the path (diagnostics)
@@ -93,6 +94,8 @@ type Walker struct {
 	parentPs *pstate         // its path state at the call
 	argVals  []ssa.Value     // the call's argument values in the parent's function
 	Target   func(in ssa.Instruction, w *Walker) bool
+	AllRets  bool                            // evaluate every boolean result at a return (Outcome.Rets)
+	CallFork func(c *ssa.Call) []CallSummary // ways a summarised helper called here can end (nil: not summarised)
 	Stop     func(b *ssa.BasicBlock) bool
 	RetIdx   int
 	Visits   int
@@ -180,11 +183,26 @@ func (w *Walker) Run(start, pred *ssa.BasicBlock) []Outcome {
 	return w.out
 }
 
-func (w *Walker) walk(b, pred *ssa.BasicBlock, ps *pstate) {
+func (w *Walker) walk(b, pred *ssa.BasicBlock, ps *pstate) { w.walkAt(b, pred, ps, 0) }
+
+// CallSummary is one way a summarised helper can end: the tag it adds to the path and the values of
+// its boolean results (U where not known).
+type CallSummary struct {
+	Tag  string
+	Rets []Tri
+}
+
+// walkAt continues the walk of block b at instruction index from (0: enter the block normally).
+func (w *Walker) walkAt(b, pred *ssa.BasicBlock, ps *pstate, from int) {
 	for {
 		w.cur = ps
 		if w.over {
 			return
+		}
+		start := from
+		from = 0
+		if start > 0 {
+			goto instrs
 		}
 		if w.Stop != nil && w.Stop(b) {
 			w.out = append(w.out, Outcome{Hit: ps.hit, Tag: ps.tag, Ended: "stop", Why: w.why})
@@ -239,8 +257,40 @@ func (w *Walker) walk(b, pred *ssa.BasicBlock, ps *pstate) {
 				ps.vals[k] = v
 			}
 		}
-		for _, in := range b.Instrs {
+	instrs:
+		for i := start; i < len(b.Instrs); i++ {
+			in := b.Instrs[i]
 			switch x := in.(type) {
+			case *ssa.Call:
+				// a summarised helper: one continuation per way it can end
+				if w.CallFork != nil {
+					if sums := w.CallFork(x); len(sums) > 0 {
+						bind := func(q *pstate, cs CallSummary) {
+							q.tag += cs.Tag
+							if len(cs.Rets) == 1 {
+								q.vals[x] = cs.Rets[0]
+							}
+							for _, r := range *x.Referrers() {
+								if ex, ok := r.(*ssa.Extract); ok && ex.Index < len(cs.Rets) {
+									q.vals[ex] = cs.Rets[ex.Index]
+								}
+							}
+						}
+						for _, cs := range sums[1:] {
+							w.paths++
+							if w.paths > 20000 {
+								w.over = true
+								return
+							}
+							q := ps.clone(w.fr)
+							bind(q, cs)
+							w.walkAt(b, pred, q, i+1)
+							w.cur = ps
+							w.lastPred = pred
+						}
+						bind(ps, sums[0])
+					}
+				}
 			case *ssa.UnOp:
 				if x.Op == token.MUL {
 					if fa, ok := x.X.(*ssa.FieldAddr); ok {
@@ -273,6 +323,15 @@ func (w *Walker) walk(b, pred *ssa.BasicBlock, ps *pstate) {
 			o := Outcome{Hit: ps.hit, Tag: ps.tag, Ended: "return", Why: w.why, Err: returnsNonNilError(t)}
 			if w.RetIdx >= 0 && w.RetIdx < len(t.Results) && isBool(t.Results[w.RetIdx].Type()) {
 				o.Ret = w.evalBool(t.Results[w.RetIdx], ps)
+			}
+			if w.AllRets {
+				for _, r := range t.Results {
+					if isBool(r.Type()) {
+						o.Rets = append(o.Rets, w.evalBool(r, ps))
+					} else {
+						o.Rets = append(o.Rets, U)
+					}
+				}
 			}
 			if w.RetIdx >= 0 && w.RetIdx < len(t.Results) && isIntType(t.Results[w.RetIdx].Type()) {
 				if c, ok := t.Results[w.RetIdx].(*ssa.Const); ok && c.Value != nil {
